@@ -236,8 +236,11 @@ def extract(spec, repo, outdir):
                (spec["file"], line0, line1, hashlib.sha256(src.encode()).hexdigest()[:16]))
     if spec.get("pre"):
         out.append(spec["pre"])
-    out.append(spec["sig"])
-    out.append(("{\n" + body + "\n" + spec.get("region_epilogue", "") + "}") if spec.get("region_end") else body)
+    if spec.get("toplevel"):
+        out.append(body)          # a region of declarations (constants), emitted at file scope
+    else:
+        out.append(spec["sig"])
+        out.append(("{\n" + body + "\n" + spec.get("region_epilogue", "") + "}") if spec.get("region_end") else body)
     if spec.get("post"):
         out.append(spec["post"])
     emitted = "\n".join(out) + "\n"
